@@ -628,9 +628,11 @@ theorem gstep_blockWait_eq (H : Hist) (B : Nat) (cfg : GcCfg) (g : GNode) :
   have hb : ∀ n : Node, (step H B n .block).2 = none := fun _ => rfl
   simp only [gstep, blockWait, hh, hb, Option.toList, List.nil_append, List.append_nil]
 
-theorem gstep_ok {H : Hist} {B : Nat} (cfg : GcCfg) (hB : 1 < B) (hm : 0 < cfg.mtb) {g : GNode} (hs : GState H B g) (o : GOp) :
+theorem gstep_ok {H : Hist} {B : Nat} (cfg : GcCfg) (hB : 1 < B) (hm : 0 < cfg.mtb) {g : GNode} (hs : GState H B g) (o : GOp)
+    (ho : o.leaky = false) :
     StepOKw H B g (gstep H B cfg g o).1 (gstep H B cfg g o).2 := by
   cases o with
+  | blockWaitRC => simp [GOp.leaky] at ho
   | base o => exact (gstep_base_ok cfg hB hs o).weak
   | gcRun old gx => exact (gstep_gcRun_ok cfg hB hm hs old gx).weak
   | blockWait =>
@@ -640,25 +642,29 @@ theorem gstep_ok {H : Hist} {B : Nat} (cfg : GcCfg) (hB : 1 < B) (hm : 0 < cfg.m
     have s3 := (gstep_base_ok cfg hB s2.1 .block).weak
     exact s1.comp (s2.comp s3)
 
-theorem gstate_grunFrom {H : Hist} {B : Nat} (cfg : GcCfg) (hB : 1 < B) (hm : 0 < cfg.mtb) {g : GNode} (hs : GState H B g) (ops : List GOp) :
+theorem gstate_grunFrom {H : Hist} {B : Nat} (cfg : GcCfg) (hB : 1 < B) (hm : 0 < cfg.mtb) {g : GNode} (hs : GState H B g) (ops : List GOp)
+    (hno : ∀ o ∈ ops, o.leaky = false) :
     GState H B (grunFrom H B cfg g ops).1 := by
   induction ops generalizing g with
   | nil => exact hs
-  | cons o r ih => simp only [grunFrom]; exact ih (gstep_ok cfg hB hm hs o).1
+  | cons o r ih =>
+    simp only [grunFrom]
+    exact ih (gstep_ok cfg hB hm hs o (hno o (by simp))).1 (fun x hx => hno x (by simp [hx]))
 
-theorem gheight_mono {H : Hist} {B : Nat} (cfg : GcCfg) (hB : 1 < B) (hm : 0 < cfg.mtb) {g : GNode} (hs : GState H B g) (ops : List GOp) :
+theorem gheight_mono {H : Hist} {B : Nat} (cfg : GcCfg) (hB : 1 < B) (hm : 0 < cfg.mtb) {g : GNode} (hs : GState H B g) (ops : List GOp)
+    (hno : ∀ o ∈ ops, o.leaky = false) :
     g.n.height ≤ (grunFrom H B cfg g ops).1.n.height ∧ g.n.hdrHeight ≤ (grunFrom H B cfg g ops).1.n.hdrHeight := by
   induction ops generalizing g with
   | nil => exact ⟨Nat.le_refl _, Nat.le_refl _⟩
   | cons o r ih =>
     simp only [grunFrom]
-    obtain ⟨s1, _, s3, s4, _⟩ := gstep_ok cfg hB hm hs o
-    obtain ⟨a, b⟩ := ih s1
+    obtain ⟨s1, _, s3, s4, _⟩ := gstep_ok cfg hB hm hs o (hno o (by simp))
+    obtain ⟨a, b⟩ := ih s1 (fun x hx => hno x (by simp [hx]))
     exact ⟨Nat.le_trans s3 a, Nat.le_trans s4 b⟩
 
 /-- the backend after every prefix of the batches of a whole schedule is consistent on its own. -/
 theorem gprefix_ok {H : Hist} {B : Nat} (cfg : GcCfg) (hB : 1 < B) (hm : 0 < cfg.mtb) {g : GNode} (hs : GState H B g) (ops : List GOp)
-    (k : Nat) (hk : k ≤ (grunFrom H B cfg g ops).2.length) :
+    (hno : ∀ o ∈ ops, o.leaky = false) (k : Nat) (hk : k ≤ (grunFrom H B cfg g ops).2.length) :
     DiskOK H B (grunFrom H B cfg g ops).1.n.height (grunFrom H B cfg g ops).1.n.hdrHeight
       (foldBatches ((grunFrom H B cfg g ops).2.take k) g.n.db) := by
   induction ops generalizing g k with
@@ -667,8 +673,9 @@ theorem gprefix_ok {H : Hist} {B : Nat} (cfg : GcCfg) (hB : 1 < B) (hm : 0 < cfg
     exact hs.disk
   | cons o r ih =>
     simp only [grunFrom] at hk ⊢
-    obtain ⟨s1, s2, s3, s4, s5⟩ := gstep_ok cfg hB hm hs o
-    obtain ⟨m1, m2⟩ := gheight_mono cfg hB hm s1 r
+    obtain ⟨s1, s2, s3, s4, s5⟩ := gstep_ok cfg hB hm hs o (hno o (by simp))
+    have hno' : ∀ x ∈ r, x.leaky = false := fun x hx => hno x (by simp [hx])
+    obtain ⟨m1, m2⟩ := gheight_mono cfg hB hm s1 r hno'
     by_cases c : k ≤ (gstep H B cfg g o).2.length
     · rw [List.take_append_of_le_length c]
       exact (s5 k c).mono m1 m2
@@ -676,7 +683,7 @@ theorem gprefix_ok {H : Hist} {B : Nat} (cfg : GcCfg) (hB : 1 < B) (hm : 0 < cfg
       rw [List.take_append, List.take_of_length_le (by omega)]
       simp only [Nat.add_sub_cancel_left]
       rw [foldBatches_append, ← s2]
-      apply ih s1
+      apply ih s1 hno'
       simp at hk; omega
 
 /-! ### AddBlock with a flush during its back-pressure wait -/
